@@ -65,7 +65,7 @@ func valText(v any) string {
 
 type unencodable struct{} // a list that JSON cannot encode: [1, inf]
 
-var addVals = []any{nil, true, int64(5), 2.5, "s", "2021-05-27 06:54:14.760 UTC", []any{int64(1), "a"}, map[string]any{"a": int64(1)}, unencodable{}}
+var addVals = []any{nil, true, int64(5), 2.5, "s", "2021-05-27 06:54:14.760 UTC", []any{int64(1), "a"}, map[string]any{"a": int64(1)}, unencodable{}, "NaN", "-Infinity", "1e999", "12abc"}
 
 func allOps() []op {
 	var out []op
@@ -96,6 +96,10 @@ func allOps() []op {
 		out = append(out, op{Text: fmt.Sprintf("uppercase(%s)", k), Kind: "strfn", K: k})
 		out = append(out, op{Text: fmt.Sprintf("replace(%s, \"s\", \"z\")", k), Kind: "strfn", K: k})
 		out = append(out, op{Text: fmt.Sprintf("default_time(%s)", k), Kind: "deftime", K: k})
+		// extraction into this key (plain and typed), with a second capture named like the message alias
+		out = append(out, op{Text: fmt.Sprintf("add_key(src_g, \"first 42\")\ngrok(src_g, \"%%{WORD:%s} %%{INT:_}\")\ndrop_key(src_g)", k), Kind: "grok", K: k})
+		out = append(out, op{Text: fmt.Sprintf("add_key(src_g, \"first 42\")\ngrok(src_g, \"%%{WORD} %%{INT:%s:int}\")\ndrop_key(src_g)", k), Kind: "grok", K: k})
+		out = append(out, op{Text: fmt.Sprintf("inf2 = 1.0e308 * 10.0\nadd_key(%s, inf2 - inf2)\ncast(%s, \"int\")", k, k), Kind: "castnan", K: k})
 	}
 	return out
 }
@@ -222,6 +226,42 @@ func invariants(t rk.Failer, p *input.Point) string {
 		}
 		if gerr == nil && gv != nil {
 			return fmt.Sprintf("Point.Get(%q) = %s but the output point holds no such key", k, probe.Render(gv))
+		}
+	}
+	// keys outside the fixed set (created by captures etc.): Point.Get and a script read agree with the output as well
+	known := map[string]bool{}
+	for _, k := range keys {
+		known[k] = true
+	}
+	var extra []string
+	for k := range p.Tags {
+		if !known[k] {
+			extra = append(extra, k)
+		}
+	}
+	for k := range p.Fields {
+		if !known[k] {
+			extra = append(extra, k)
+		}
+	}
+	sort.Strings(extra)
+	for _, k := range extra {
+		want := "nil"
+		if tv, ok := p.Tags[k]; ok {
+			want = probe.Render(tv)
+		} else {
+			want = probe.Render(p.Fields[k])
+		}
+		gv, _, gerr := p.Get(k)
+		if gerr != nil || probe.Render(gv) != want {
+			return fmt.Sprintf("Point.Get(%q) = %s (err %v), the output point holds %s", k, probe.Render(gv), gerr, want)
+		}
+		s2 := &probe.Sig{}
+		if err, crash := impl.RunV1(load(t, "probe(\"r\", `"+k+"`)"), p, s2); err != nil || crash != nil || len(s2.Trace) != 1 {
+			return fmt.Sprintf("reading key %q from a script failed: %v %v", k, err, crash)
+		}
+		if got := s2.Trace[0].Vals[0]; got != want {
+			return fmt.Sprintf("a script reads key %q as %s, the output point holds %s", k, got, want)
 		}
 	}
 	// script read
